@@ -200,13 +200,21 @@ def c_axis_angle_3d(case, ctx):
 
 # ------------------------------------------------------------------------------------------ 3
 def s_quat():
-    return st.fixed_dictionaries({"q": gen.unit_quaternion_case()})
+    # general unit quaternions, plus explicit half-turns (scalar part exactly 0 or at rounding-noise level) whose
+    # axis has components of any sign: the sign convention / eigenvector branch of as_vector is decided there
+    half_turn = st.tuples(
+        st.sampled_from([0.0, 0.0, 1e-12, -1e-12, 1e-9]),
+        st.lists(gen.q(-1, 1), min_size=3, max_size=3).filter(lambda v: sum(x * x for x in v) > 0.05),
+    ).map(lambda t: [t[0]] + t[1])
+    return st.fixed_dictionaries({"q": st.one_of(gen.unit_quaternion_case(), gen.unit_quaternion_case(), half_turn)})
 
 
 def c_quat(case, ctx):
     qv = gen.build_unit_quaternion(case["q"])
     ctx.nontrivial(abs(qv[0]) < 0.9999)
-    ctx.event("q0~0" if abs(qv[0]) < 1e-6 else "q0>0")
+    ctx.event("q0~0 (half turn)" if abs(qv[0]) < 1e-6 else "q0>0")
+    if abs(qv[0]) < 1e-6:
+        ctx.event("half-turn axis signs mixed" if min(qv[1:]) < 0 < max(qv[1:]) else "half-turn axis signs same")
     r = Rotation.init_3d_from_quaternion(qv)
     ctx.expect(isinstance(r, Rotation) and r.n_dims == 3, "quat.class", type(r).__name__)
     want = quat_matrix(qv)
